@@ -23,7 +23,8 @@ Inductive fpath :=
 | FIndex                        (* index.json *)
 | FIndexTmp (c : nat)           (* index.json.tmp<random>: temporary sibling, c = operation counter *)
 | FBlob (d : N)                 (* blobs/sha256/<d> *)
-| FIngest (d : N) (c : nat).    (* ingest/<d>_<random> *)
+| FIngest (d : N) (c : nat)     (* ingest/<d>_<random> *)
+| FLayoutTmp (c : nat).         (* oci-layout.tmp<random>: temporary sibling during initialisation *)
 
 Inductive dpath := DBlobs | DAlg | DIngest.
 
@@ -34,6 +35,7 @@ Definition fpath_eqb (p q : fpath) : bool :=
   | FIndexTmp a, FIndexTmp b => Nat.eqb a b
   | FBlob a, FBlob b => N.eqb a b
   | FIngest a x, FIngest b y => N.eqb a b && Nat.eqb x y
+  | FLayoutTmp a, FLayoutTmp b => Nat.eqb a b
   | _, _ => false
   end.
 
@@ -44,7 +46,7 @@ Definition dpath_eqb (p q : dpath) : bool :=
   end.
 
 Definition is_temp (p : fpath) : bool :=
-  match p with FIndexTmp _ | FIngest _ _ => true | _ => false end.
+  match p with FIndexTmp _ | FIngest _ _ | FLayoutTmp _ => true | _ => false end.
 
 (* ---------- file contents ---------- *)
 Definition entry := (N * option N)%type.      (* index.json entry: blob name, ref-name annotation *)
@@ -254,6 +256,23 @@ Definition init_fs : FS :=
        (fun d => match d with DBlobs => true | _ => false end).
 Definition init : st := mkSt init_fs [] [] 0.
 
+(* ---------- initialisation itself: oci.New on a directory that is not (yet) a layout ---------- *)
+Definition empty_fs : FS := mkFS (fun _ => None) (fun _ => false).
+
+(* layout_inplace = true is the code before the repair: os.WriteFile on oci-layout *)
+Definition layout_steps (layout_inplace : bool) (c : nat) : list mstep :=
+  if layout_inplace
+  then [OpenTrunc FLayout; Write FLayout ALayout; Close FLayout]
+  else [Create (FLayoutTmp c); Write (FLayoutTmp c) ALayout; Close (FLayoutTmp c);
+        Rename (FLayoutTmp c) FLayout].
+
+(* New: ensureDir(blobs); oci-layout is written when it does not exist (validated when it
+   does); index.json is written (no manifests) when it does not exist (loaded when it does) *)
+Definition new_steps (layout_inplace : bool) (fs : FS) (c : nat) : list mstep :=
+  (if dirs fs DBlobs then [] else [Mkdir DBlobs]) ++
+  (if exists_file fs FLayout then [] else layout_steps layout_inplace c) ++
+  (if exists_file fs FIndex then [] else index_steps c [] []).
+
 (* ---------- what a reader of the directory sees ---------- *)
 Definition read_index (fs : FS) : option (list entry) :=
   match files fs FIndex with
@@ -266,6 +285,11 @@ Definition layout_okb (fs : FS) : bool :=
   | Some f => match fcontent f with [ALayout] => true | _ => false end
   | None => false
   end.
+
+(* New does not fail on this directory: what exists parses *)
+Definition new_okb (fs : FS) : bool :=
+  (negb (exists_file fs FLayout) || layout_okb fs) &&
+  (negb (exists_file fs FIndex) || match read_index fs with Some _ => true | None => false end).
 
 (* ---------- crash, then oci.New on the directory that was left behind ---------- *)
 (* loadIndex: every entry is tagged by its digest; an entry with a ref name is tagged by it
@@ -353,6 +377,9 @@ Definition src_inplace : bool :=
 Definition src_unlink_first : bool :=
   negb (list_eqb str_eqb calls_delete [b "s.saveIndex"; b "s.storage.Delete"]).
 (* Store.GC: rebuild the maps, save index.json, only then remove blob files *)
+(* ensureOCILayoutFile writes oci-layout through writeFileAtomic *)
+Definition src_layout_inplace : bool :=
+  negb (list_eqb str_eqb calls_ensure_layout [b "writeFileAtomic"]).
 Definition src_gc_order_ok : bool :=
   list_eqb str_eqb calls_gc [b "s.gcIndex"; b "s.saveIndex"; b "os.Remove"].
 (* Store.Push: the blob is stored before it is tagged; Storage.Push: ingest then rename;
